@@ -17,7 +17,7 @@ type ProcCheck struct {
 	MaxRunsQuick int
 	Level        string
 	Assumptions  []string
-	Harvest      bool // also validate the traces harvested from the repository's own test-suite (E6)
+	Harvest      bool     // also validate the traces harvested from the repository's own test-suite (E6)
 	Storms       []string // scenarios also run as uncontrolled storms of StormN processes
 	StormN       int
 }
